@@ -82,7 +82,7 @@ def report(prop, mod, acc: core.Acc, findings: core.Findings, confirm=True):
                       f'(got {sorted(sigs)}); not reported as a violation')
                 sys.exit(2)
         h = hashlib.sha1(sig.encode()).hexdigest()[:12]
-        d = core.VERIF / 'replay' / prop
+        d = core.OUT / 'replay' / prop
         d.mkdir(parents=True, exist_ok=True)
         p = d / f'{h}.json'
         p.write_text(json.dumps({
@@ -147,7 +147,7 @@ def main(argv=None):
         traceback.print_exc()
         return 2
     import shutil
-    shutil.rmtree(core.VERIF / 'replay' / prop, ignore_errors=True)
+    shutil.rmtree(core.OUT / 'replay' / prop, ignore_errors=True)
     new, seen_known = report(prop, mod, ctx.acc, findings, confirm=not args.no_confirm)
     wall = time.time() - t0
     extra = dict(ctx.extra)
